@@ -26,10 +26,12 @@ PickAccepts(c) ==
 TInt == [type |-> "integer"]
 HeaderOK(hd, hv) ==
    CASE hd = "none"   -> TRUE
-     [] hv = "absent" -> hd # "intReq"
+     [] hv = "absent" -> hd \notin {"intReq", "contentReq"}
      [] hd \in {"intReq", "intOpt"} -> hv = "5"                       \* "abc" and "1,2" are not integers
      [] hd = "arrOpt" -> hv \in {"5", "1,2"}                          \* array of integers, simple style
      [] hd = "arrMax1" -> hv = "5"                                    \* ... with maxItems 1
+     [] hd = "contentReq" -> TRUE                                     \* defined by `content`: only presence is checkable
+     [] hd = "contentOpt" -> TRUE
 
 BodySchema == [type |-> "object", pk |-> <<"q", "r", "w">>,
                ps |-> <<TInt, [type |-> "string", readOnly |-> TRUE], [type |-> "string", writeOnly |-> TRUE]>>,
